@@ -42,6 +42,11 @@ def scopeStableCmd (args : List Sexp) : Option String := do
     pure (if outside then "outside" else if scopeStable t m then "true" else "false")
   | _ => none
 
+/-- `pycore.exctable` → one line per builtin exception class: name, `E`/`B` (under `Exception` or not), its parents -/
+def excTableCmd (_ : List Sexp) : Option String :=
+  some (encStr ("\n".intercalate (knownExcs.map fun n =>
+    n ++ " " ++ (if excBaseOnly.contains n then "B" else "E") ++ " " ++ ",".intercalate (excParents n) ++ " " ++ raisedBy n)))
+
 def runCmd (args : List Sexp) : Option String := runWith false args
 /-- `pycore.runO`: the same under `python -O` semantics -/
 def runOCmd (args : List Sexp) : Option String := runWith true args
